@@ -22,6 +22,7 @@ fn registry() -> Vec<(&'static str, RunFn, ReplayFn, u64)> {
         ("C11", props::c11::run, props::c11::replay, 7200),
         ("C12", props::c12::run, props::c12::replay, 7200),
         ("C13", props::c13::run, props::c13::replay, 10800),
+        ("C14", props::c14::run, props::c14::replay, 10800),
     ]
 }
 
